@@ -3,8 +3,10 @@
    with Print Assumptions beneath.  Every theorem holds for every provider (rate functions),
    every composition (any length), every line, every density/temperature (any sign). *)
 Require Import Cherab.Common.Qx.
-Require Import Cherab.Model.C03_Passive Cherab.Model.C03_Brems.
+Require Import Cherab.Model.C03_Passive Cherab.Model.C03_Brems Cherab.Model.C03_Quadrature Cherab.Model.C03_Gaunt Cherab.Model.C03_Check.
 Require Import Cherab.Proofs.C03_Lines Cherab.Proofs.C03_Total Cherab.Proofs.C03_Brems.
+Require Import Cherab.Model.C03_Cache.
+Require Import Cherab.Proofs.C03_Quadrature Cherab.Proofs.C03_BremsGQ Cherab.Proofs.C03_Gaunt Cherab.Proofs.C03_Cache.
 Open Scope Q_scope.
 
 (* (1/4pi) n_e n_i PEC(n_e, T_e), n_i the density of the species (element, charge) of the line *)
@@ -102,8 +104,11 @@ Print Assumptions C03_brems_species_filter.
 
 (* bin k holds integ(f, min + k delta, min + (k+1) delta) / delta, and with an exact integrator the bins
    integrate to the integral of f over the whole window, for any number of bins.
-   Partial: the integrator (Gauss-Legendre quadrature in the code) is an oracle; that it approximates
-   the integral is not proved. *)
+   Partial: the second conjunct assumes an exact integrator.  Since the deepening round the integrator of the code
+   (GaussianQuadrature.evaluate) is inside the model (Model/C03_Quadrature.v) and C03_gq_refines_rule / C03_gq_laws /
+   C03_brems_spectrum_nonneg / C03_brems_vacuum_zero below are proved for it; what remains unproved is only the
+   analytic fact that a Gauss-Legendre rule approximates the integral (quadrature error bound), i.e. that the
+   hypothesis 'integ f a b == F b - F a' holds up to the tolerance for the modelled integrator. *)
 Theorem C03_brems_bin_average_partial :
   forall integ f minw delta n,
   (forall k, (k < n)%nat ->
@@ -226,6 +231,116 @@ Theorem C03_history_independent :
   emit (pt_ne (nth k pts d)) (pt_te (nth k pts d)) (pt_comp (nth k pts d)).
 Proof. intros. unfold emission_seq. exact (map_nth (fun p => emit (pt_ne p) (pt_te p) (pt_comp p)) pts d k). Qed.
 Print Assumptions C03_history_independent.
+
+(* ---- the integrator of the code (GaussianQuadrature.evaluate) as part of the model ------------------------------ *)
+(* the adaptive loop returns the rule of one of the orders min..max at its place in the flat caches, and a rule is
+   d * sum_i w_i f(c + d r_i) over its slice (loop refines specification, index arithmetic included) *)
+Theorem C03_gq_refines_rule :
+  forall roots weights mn mx rtol f a b, (mn <= mx)%nat ->
+  exists j, (j < S mx - mn)%nat /\
+    gq_evaluate roots weights mn mx rtol f a b =
+      rule roots weights (ib_at mn 0 j) (mn + j) f ((1 # 2) * (a + b)) ((1 # 2) * (b - a)) /\
+    rule roots weights (ib_at mn 0 j) (mn + j) f ((1 # 2) * (a + b)) ((1 # 2) * (b - a)) ==
+      (1 # 2) * (b - a) * Qsum (map (fun rw => snd rw * f ((1 # 2) * (a + b) + (1 # 2) * (b - a) * fst rw))
+                                    (nodes roots weights (ib_at mn 0 j) (mn + j))).
+Proof.
+  intros roots weights mn mx rtol f a b H. unfold gq_evaluate.
+  destruct (gq_loop_spec roots weights (S mx - mn) mn 0%nat None f ((1 # 2) * (a + b)) ((1 # 2) * (b - a)) rtol) as [j [Hj E]]; [lia|].
+  exists j. split; [exact Hj|]. split; [exact E|apply rule_sum].
+Qed.
+Print Assumptions C03_gq_refines_rule.
+
+(* every rule is linear in the function; the integrator preserves positivity (non-negative weights), maps the zero
+   function to zero and integrates constants exactly when the weights of each rule sum to 2 *)
+Theorem C03_gq_laws :
+  forall roots weights,
+  (forall ibegin order f g al be c d,
+     rule roots weights ibegin order (fun x => al * f x + be * g x) c d ==
+     al * rule roots weights ibegin order f c d + be * rule roots weights ibegin order g c d) /\
+  (forall mn mx rtol f a b, (forall w, In w weights -> 0 <= w) -> (forall x, 0 <= f x) -> a <= b ->
+     0 <= gq_evaluate roots weights mn mx rtol f a b) /\
+  (forall mn mx rtol f a b, (forall x, f x == 0) -> gq_evaluate roots weights mn mx rtol f a b == 0) /\
+  (forall mn mx rtol k a b, (mn <= mx)%nat ->
+     (forall j, (j < S mx - mn)%nat -> Qsum (map snd (nodes roots weights (ib_at mn 0 j) (mn + j))) == 2) ->
+     gq_evaluate roots weights mn mx rtol (fun _ => k) a b == k * (b - a)).
+Proof.
+  intros roots weights.
+  split; [intros; apply rule_linear|]. split; [intros; apply gq_evaluate_nonneg; assumption|].
+  split; [intros; apply gq_evaluate_zero; assumption|]. intros; apply gq_evaluate_constant; assumption.
+Qed.
+Print Assumptions C03_gq_laws.
+
+(* the bins of the bremsstrahlung spectrum themselves (not only the integrand) are never negative for a non-negative
+   Gaunt factor, with the integrator of the code, for densities and temperatures of any sign *)
+Theorem C03_brems_spectrum_nonneg :
+  forall C sqrtf expf gaunt roots weights mn mx rtol ne te comp minw delta nbins bins,
+  0 <= brems_const C sqrtf -> 0 <= sqrtf te -> (forall x, 0 <= expf x) -> (forall z t w, 0 <= gaunt z t w) ->
+  (forall w, In w weights -> 0 <= w) -> 0 < delta ->
+  brems_emission C sqrtf expf gaunt (gq_evaluate roots weights mn mx rtol) ne te comp minw delta nbins = Some bins ->
+  forall b, In b bins -> 0 <= b.
+Proof. exact brems_gq_bins_nonneg. Qed.
+Print Assumptions C03_brems_spectrum_nonneg.
+
+(* no ion of positive density (vacuum, neutrals only, every density <= 0): every bin is zero *)
+Theorem C03_brems_vacuum_zero :
+  forall C sqrtf expf gaunt roots weights mn mx rtol ne te comp minw delta nbins bins,
+  filter takes_part comp = [] ->
+  brems_emission C sqrtf expf gaunt (gq_evaluate roots weights mn mx rtol) ne te comp minw delta nbins = Some bins ->
+  forall b, In b bins -> b == 0.
+Proof. exact brems_gq_zero. Qed.
+Print Assumptions C03_brems_vacuum_zero.
+
+(* the provider's Gaunt factor (InterpolatedFreeFreeGauntFactor): the four branches are taken exactly under the documented
+   conditions, exhaustively and exclusively; 0 for z = 0, 1 in the classical limit *)
+Theorem C03_gaunt_branch_spec :
+  forall umin umax g2min g2max z u g2,
+  (gaunt_branch umin umax g2min g2max z u g2 = GZero <-> z == 0) /\
+  (gaunt_branch umin umax g2min g2max z u g2 = GClassical <-> ~ z == 0 /\ (umax <= u \/ g2max <= g2)) /\
+  (gaunt_branch umin umax g2min g2max z u g2 = GBorn <->
+     ~ z == 0 /\ u < umax /\ g2 < g2max /\ (u < umin \/ g2 < g2min)) /\
+  (gaunt_branch umin umax g2min g2max z u g2 = GInterp <->
+     ~ z == 0 /\ umin <= u /\ u < umax /\ g2min <= g2 /\ g2 < g2max).
+Proof. exact gaunt_branch_spec. Qed.
+Print Assumptions C03_gaunt_branch_spec.
+
+(* emission is ADDED to what the spectrum already holds; an early return or an error leaves it untouched *)
+Theorem C03_emission_adds :
+  forall old o delta,
+  ((forall r, o <> Emit r) -> spectrum_after old o = old) /\
+  (forall k, (k < length old)%nat -> nth k (spectrum_after old o) 0 == nth k old 0 + emitted o) /\
+  integrate_bins (spectrum_after old o) delta ==
+  integrate_bins old delta + emitted o * (delta * inject_Z (Z.of_nat (length old))).
+Proof. exact spectrum_after_spec. Qed.
+Print Assumptions C03_emission_adds.
+
+(* bound of the rounding model used when the correspondence runs the integrand inside Coq: values are rounded down to a
+   multiple of 2^-P and lose less than 2^-P *)
+Theorem C03_rnd_bounds :
+  forall P y, (0 <= P)%Z -> rnd P y <= y /\ y < rnd P y + 1 / inject_Z (2 ^ P).
+Proof. exact rnd_bounds. Qed.
+Print Assumptions C03_rnd_bounds.
+
+(* per-instance caches, for every history of evaluations and notifications: the cache is populated at an evaluation
+   exactly when it is the first one, a notification arrived since the previous evaluation, or the previous populate failed *)
+Theorem C03_cache_populates :
+  (forall populated notified ok,
+     fst (populate_step populated notified ok) = (notified || negb populated)%bool /\
+     snd (populate_step populated notified ok) = (if (notified || negb populated)%bool then ok else true)) /\
+  (forall steps populated,
+     run_steps populated (map (fun s => (fst s, (fun fr : bool => fr), snd s)) steps) = fresh_flags (negb populated) steps).
+Proof. split; [exact populate_step_spec | exact run_steps_flags]. Qed.
+Print Assumptions C03_cache_populates.
+
+(* Bremsstrahlung: after any operation the cache is populated; the provider's Gaunt factor is fetched only when the user
+   has not set one; setting one never consults the provider; resetting it to None does *)
+Theorem C03_brems_gaunt_cache :
+  forall st op,
+  fst (snd (brems_cache_step st op)) = true /\
+  (fst (brems_cache_step st op) = true -> snd (snd (brems_cache_step st op)) = false) /\
+  (op = 2%Z -> fst (brems_cache_step st op) = false /\ snd (snd (brems_cache_step st op)) = true) /\
+  (op = 3%Z -> fst (brems_cache_step st op) = true).
+Proof. exact brems_cache_step_spec. Qed.
+Print Assumptions C03_brems_gaunt_cache.
 
 (* the constant: 1/(4 pi) to double precision, and the bremsstrahlung constant for the CODATA values
    (square roots bracketed by rationals) is 1.5151e-36, i.e. 4 pi K / (hc/e) = 1.536e-38 W m^3 eV^-1/2, the
